@@ -628,7 +628,19 @@ func (c *Ctx) prevCheckpointStrict() {
 			seen[v] = true
 			switch x := v.(type) {
 			case *ssa.Phi:
-				for _, e := range x.Edges {
+				for i, e := range x.Edges {
+					// the adoption point of a candidate is the edge on which
+					// the result variable takes it, not the place where its
+					// address was computed
+					if ia, ok := e.(*ssa.IndexAddr); ok {
+						pred := x.Block().Preds[i]
+						if len(pred.Succs) == 1 {
+							cands = append(cands, pred.Instrs[len(pred.Instrs)-1])
+						} else {
+							cands = append(cands, ia)
+						}
+						continue
+					}
 					walk(e)
 				}
 			case *ssa.IndexAddr:
@@ -669,7 +681,16 @@ func (c *Ctx) nextCheckpointStrict() {
 			seen[v] = true
 			switch x := v.(type) {
 			case *ssa.Phi:
-				for _, e := range x.Edges {
+				for i, e := range x.Edges {
+					if ia, ok := e.(*ssa.IndexAddr); ok && ir.LoopHeaderOf(ia.Block()) != nil {
+						pred := x.Block().Preds[i]
+						if len(pred.Succs) == 1 {
+							cands = append(cands, pred.Instrs[len(pred.Instrs)-1])
+						} else {
+							cands = append(cands, ia)
+						}
+						continue
+					}
 					walk(e)
 				}
 			case *ssa.IndexAddr:
